@@ -149,14 +149,19 @@ def c01(pid, tier, t0):
 def c04(pid, tier, t0):
     exe = nv.build_harness("c04_lbuf", "asan", ["c04_lbuf.c", "peek_lbuf.c"], replace=["lbuf"], wraps=WRAPS)
     res = nv.run_shards(exe, ["tier=" + tier, "deadline=%d" % dl(tier)], nv.NCPU, dl(tier) + 120)
+    exe2 = nv.build_harness("c04_vi_undo", "plain", ["c04_vi_undo.c"], wraps=WRAPS)
+    res = nv.run_shards(exe2, ["tier=" + tier, "deadline=%d" % dl(tier)], nv.NCPU, dl(tier) + 120, res=res, tag="v")
     return nv.finish(pid, tier, t0, res, {
-        "rule": "line-buffer interface: operations = lbuf_edit(text,beg,end) for every 0<=beg<=end<=len+1 and text in {NULL,\"\",a\\n,b\\nc\\n,d} (buffers capped at 6 lines), "
-                "new command (lbuf_modified), undo, redo, saved(0), saved(1); all sequences up to depth, each rebuilt by replay on a fresh buffer; plus runs of 130 edits/undos/redos across the 128-entry history growth; "
-                "distinct = distinct canonical (text, history) states reached",
-        "depth_bound": res.stats.get("depth", res.stats.get("bfs_depth_completed")),
-        "explanation": "after every step lbuf_len/lbuf_get/lbuf_cp, the status of undo/redo and the dirty answer of lbuf_modified() are compared with a reference that keeps whole-text snapshots grouped by command",
+        "rule": "(a) line-buffer interface: operations = lbuf_edit(text,beg,end) for every 0<=beg<=end<=len+1 and text in {NULL,\"\",a\\n,b\\nc\\n,d} (buffers capped at 6 lines), "
+                "new command (lbuf_modified), undo, redo, saved(0), saved(1); all sequences up to depth, each rebuilt by replay on a fresh buffer; plus runs of 130 edits/undos/redos across the "
+                "128-entry history growth; (b) editor level: all sequences up to depth over single edits (x rZ ~ :1d), compound commands (3x 2dd dG :g/a/d :%s/a/b/g :1,2!tr o..<ESC> 3J >G p . 2. "
+                "cw yyP ddp nested :g) and u ^R :u :redo in vi mode; distinct = distinct canonical (text, history) states reached in (a)",
+        "depth_bound": res.stats.get("depth"),
+        "explanation": "(a) after every step lbuf_len/lbuf_get/lbuf_cp, the status of undo/redo and the dirty answer of lbuf_modified() are compared with a reference that keeps whole-text snapshots grouped by command; "
+                       "(b) the harness snapshots the whole text after every command that spliced the buffer (seen through the wrapped lbuf_edit); each undo must give exactly the previous snapshot in one step, "
+                       "each redo the one it replaced, a new edit discards the redo branch, undo/redo at the ends change nothing",
     }, ["an lbuf_edit() call other than (NULL text, empty range) counts as a history entry (interface convention)",
-        "marks are not part of the compared state"])
+        "marks are not part of the compared state", "(b): a key sequence such as yyP or ddp is one undo step per command it contains, so compound keys are single commands only"])
 
 
 @check("C05")
